@@ -325,7 +325,8 @@ class AttrProgram:
         if not self.oracle or what == "zero-arg-callable":
             return
         if what == "valid":
-            full = dict(self.fixed); full.update(assign)
+            full = {n: 0 for n in self.vals}      # (a variable the implementation lost through a name collision: candidate 0)
+            full.update(self.fixed); full.update(assign)
             want = self.leaf(full)
             if not (isinstance(rec, tuple) and close(rec[1], want, TOL)):
                 self.fails.append((f"{self.kp}logd:{kb}:{mode}:" + ("raises" if isinstance(rec, str) else "value"), d, want,
